@@ -496,6 +496,25 @@ def check_case(d):
                 why = graded_transpose_check(x, steps, A.vals[cur])
                 if why:
                     fails.append(("C09.applied_once.graded_oracle", why, dict(base, op="transpose", inherited_blockbase_op=False)))
+    if not fails and not A.dead:
+        # the pending-sign table belongs to one array: applying the pending signs of one value in place
+        # must not touch the table of any other live value (else that value's signs are applied zero times)
+        arrs = []
+        for j, v in enumerate(A.vals):
+            if hasattr(v, "phases") and hasattr(v, "phase_sync") and not any(v is w for _, w in arrs):
+                arrs.append((j, v))
+        before = {j: dict(v.phases) for j, v in arrs}
+        for i, (j, v) in enumerate(arrs):
+            if not before[j]:
+                continue
+            v.phase_sync(inplace=True)
+            for j2, w in arrs[i + 1:]:
+                if dict(w.phases) != before[j2]:
+                    fails.append(("C09.applied_once.sign_table_not_shared", f"applying the pending signs of value {j} in place changed the pending-sign table of value {j2}",
+                                  dict(base, op="phase_sync", inherited_blockbase_op=False, shared_table=True)))
+                    break
+            if fails:
+                break
     return {
         "fingerprint": fingerprint(prog, t),
         "nontrivial": nontrivial,
